@@ -101,10 +101,27 @@ func (ip *IPv4) getIPv4OptionSize() uint8 {
 // SerializeTo writes the serialized form of this layer into the
 // SerializationBuffer, implementing gopacket.SerializableLayer.
 func (ip *IPv4) SerializeTo(b gopacket.SerializeBuffer, opts gopacket.SerializeOptions) error {
+	total := 0
+	for _, opt := range ip.Options {
+		if opt.OptionType == 0 || opt.OptionType == 1 {
+			total++
+		} else {
+			total += int(opt.OptionLength)
+		}
+	}
+	if total > 40 {
+		// getIPv4OptionSize counts in a uint8 and IHL has 4 bits
+		return fmt.Errorf("IPv4 options take %d bytes, at most 40 fit into the header", total)
+	}
 	optionLength := ip.getIPv4OptionSize()
 	bytes, err := b.PrependBytes(20 + int(optionLength))
 	if err != nil {
 		return err
+	}
+	// The prepended bytes are not zeroed: clear the option area, of which the
+	// alignment padding and any slack inside an option are not written below.
+	for i := 20; i < len(bytes); i++ {
+		bytes[i] = 0
 	}
 	if opts.FixLengths {
 		ip.IHL = 5 + (optionLength / 4)
